@@ -1,6 +1,6 @@
 rc_target("c13_uri_parse", flavour="asan")
 rc_target("c13_uri_codec", flavour="asan")
-plan("C13", [T("c13_uri_parse", 30000, 300000), TT(GCC("c13_uri_parse"), 8000), T("c13_uri_codec", 30000, 300000)], min_nt=23000,
+plan("C13", [T("c13_uri_parse", 30000, 300000), TT(GCC("c13_uri_parse"), 8000), T("c13_uri_codec", 30000, 300000), TT(GCC("c13_uri_codec"), 8000)], min_nt=23000,
      rule="URI texts assembled from generated components and compared accessor by accessor; byte strings through both encoders, the decoder "
           "and the query iterator against reference implementations written in the harness",
      technique="property-based testing (rapidcheck), construction with remembered expectations: the harness assembles "
